@@ -1494,12 +1494,21 @@ _GHOST_IGNORE = {"new_display", "new_debug", "new", "new_const", "new_v1", "pani
 
 def ghost_calls(crate, b):
     """names of the library functions (and notable std ones) called from blocks that run only under `if CHECKS` in b and its closures"""
-    out = set()
+    out = {}
     for sub in b.all_bodies():
         g = sub.ghost_blocks()[0]
         for c in sub.calls:
             if c.bb in g and c.callee and c.callee.name and c.callee.name not in _GHOST_IGNORE:
-                out.add({"is_superset": "is_subset"}.get(c.callee.name, c.callee.name))      # (a ⊇ b is b ⊆ a)
+                nm = {"is_superset": "is_subset"}.get(c.callee.name, c.callee.name)      # (a ⊇ b is b ⊆ a)
+                out[nm] = out.get(nm, 0) + 1
+    return out
+
+
+def _ghost_sum(crate, bs):
+    out = {}
+    for b in bs:
+        for nm, cnt in ghost_calls(crate, b).items():
+            out[nm] = out.get(nm, 0) + cnt
     return out
 
 
@@ -1511,11 +1520,9 @@ def ghost_table(crate):
             continue
         per.setdefault(_mc_key(b), []).append(b)
     for k, bs in per.items():
-        if len(bs) != 1:
-            continue
-        g = ghost_calls(crate, bs[0])
+        g = _ghost_sum(crate, bs)      # (functions of one name in one file — `extract` — are taken together)
         if g:
-            tab[k] = sorted(g)
+            tab[k] = dict(sorted(g.items()))      # name -> number of call sites
     return tab
 
 
@@ -1546,10 +1553,8 @@ def ghost_census(ctx, crate):
     aliases = getattr(crate, "aliases", {})
     n = 0
     for k, bs in sorted(by_key.items()):
-        if len(bs) != 1:
-            continue
         b = bs[0]
-        g = ghost_calls(crate, b)
+        g = _ghost_sum(crate, bs)
         if not g:
             continue
         n += 1
@@ -1560,18 +1565,27 @@ def ghost_census(ctx, crate):
                 if k2.rsplit("::", 1)[1] == (aliases.get(b.id) or b.name):
                     want |= set(v)
         # assertion code travels with the code around it: extracting a block into a helper moves it to a callee, folding a helper
-        # back moves it to the caller — what the direct callers and callees of this function asserted in the reviewed tree is
-        # reviewed here as well
-        near = set()
-        for c in b.all_calls():
-            if c.callee and c.callee.target in crate.bodies:
-                near.add(aliases.get(c.callee.target) or crate.bodies[c.callee.target].name)
+        # back moves it to the caller — what a direct caller or callee of this function asserted in the reviewed tree *and no
+        # longer asserts* (fewer call sites of that name under its `if CHECKS` than it had) may have moved here
+        near = {}
+        ids = {x.id for x in bs}
+        for bx in bs:
+            for c in bx.all_calls():
+                if c.callee and c.callee.target in crate.bodies:
+                    t = crate.bodies[c.callee.target]
+                    near[_mc_key(t)] = t
         for b2 in crate.fns():
-            if b2.name and any(c.callee and c.callee.target == b.id for c in b2.all_calls()):
-                near.add(aliases.get(b2.id) or b2.name)
+            if b2.name and b2.kind != "Closure" and any(c.callee and c.callee.target in ids for c in b2.all_calls()):
+                near[_mc_key(b2)] = b2
+        near.pop(k, None)
         for k2, v in ref.items():
-            if k2.rsplit("::", 1)[1] in near:
-                want |= set(v)
+            nb = near.get(k2)
+            if nb is None:
+                # (a moved / renamed neighbour is found by its reviewed name)
+                nb = next((t for kk, t in near.items() if (aliases.get(t.id) or t.name) == k2.rsplit("::", 1)[1] and kk not in ref), None)
+            if nb is not None:
+                now2 = _ghost_sum(crate, by_key.get(_mc_key(nb), [nb]))
+                want |= {x for x, cnt in v.items() if now2.get(x, 0) < cnt}
         # ... and a function of the reviewed tree that no longer exists was folded into its callers: what it asserted may now
         # be asserted by any function of its file
         for k2, v in ref.items():
@@ -1582,7 +1596,7 @@ def ghost_census(ctx, crate):
         # reviewed tree are looked through one level
         known_fns = {kk.rsplit("::", 1)[1] for kk in ref} | all_ref
         new = set()
-        for nm in g - want:
+        for nm in set(g) - want:
             ts = [t for t in by_name.get(nm, [])]
             if ts and nm not in _anchor_names(crate):
                 inner = set()
